@@ -1,7 +1,9 @@
 import PfModel.DriverLib
 import PfModel.Model.Resources
+import PfModel.Model.ResourcesHeap
+import PfModel.Model.ResourcesPipe
 /-! Driver for C20 (`resources.ops`). Run: `lake env lean --run Driver/C20.lean < requests.jsonl`. -/
-open Lean PF.Drv PF.Res
+open Lean PF.Drv PF.Res PF.ResH PF.ResPipe
 
 def getExtra (j : Json) : R (List (String × Int)) := asList (asPair asStr asInt) j
 
@@ -45,6 +47,177 @@ def getUpd (j : Json) : R Upd := do
   | "extra_args", v => return .field (.extra (← getExtra v))
   | k, v => return .unknown k (← asInt v)
 
+
+/-! ### the object model with a heap (`Model/ResourcesHeap.lean`), entry `heap` -/
+
+def getRec (j : Json) : R Rec := do
+  return { f := ← getR (← fld j "f"), ex := ← natF j "ex" }
+
+/-- `["extra_args", {"ref": j}]` passes the existing dict object `j`; everything else as in `getUpd` -/
+def getHUpd (m : Nat) (j : Json) : R HUpd := do
+  let (k, v) ← asPair asStr pure j
+  if k == "extra_args" then
+    match fld? v "ref" with
+    | some r =>
+      let i ← asNat r
+      if i < m then return .extraObj i else .error "heap: dangling dict reference"
+    | none => return .plain (← getUpd j)
+  else return .plain (← getUpd j)
+
+inductive HOut
+  | noneV | err | inst (o : Nat) | kw (d : KwDict)
+
+def ofOpt : Option Nat → HOut
+  | none => .err
+  | some o => .inst o
+
+def isExtraField : Field → Bool
+  | .extra _ => true
+  | _ => false
+
+def runOp (h : Heap) (op : Json) : R (HOut × Heap) := do
+  let n := h.recs.length
+  let m := h.dicts.length
+  let chk (i : Nat) : R Nat := if i < n then pure i else .error "heap: dangling instance reference"
+  let ref (k : String) : R Nat := do chk (← natF op k)
+  let oref (k : String) : R (Option Nat) := do
+    match ← optF asNat op k with
+    | none => pure none
+    | some i => return some (← chk i)
+  match ← strF op "k" with
+  | "update" =>
+    let out := updateH h (← ref "self") (← listF (getHUpd m) op "kw")
+    return (ofOpt out.1, out.2)
+  | "combine_max" =>
+    let l ← listF asNat op "l"
+    if !(l.all (· < n)) then .error "heap: dangling instance reference"
+    if !(l.all (fun o => Valid (view h o))) then .error "heap: invalid operand"
+    let out := combineMaxH h l
+    return (ofOpt out.1, out.2)
+  | "with_defaults" =>
+    let out := withDefaultsH h (← ref "self") (← oref "default")
+    return (ofOpt out.1, out.2)
+  | "maybe_with_defaults" =>
+    let out := maybeWithDefaultsH h (← oref "r") (← oref "default")
+    return (match out.1 with | none => .err | some none => .noneV | some (some o) => .inst o, out.2)
+  | "dict" =>
+    let out := dictH h (← ref "self")
+    return (.kw out.1, out.2)
+  | "dict_roundtrip" =>
+    let a := dictH h (← ref "self")
+    let out := fromDictH a.2 a.1
+    return (ofOpt out.1, out.2)
+  | "from_dict" =>
+    let f ← getR (← fld op "f")
+    let data : KwDict ← (do
+      match ← optF asNat op "ex" with
+      | some e =>
+        if e < m then pure ((toDict { f with extra := h.dict e }).map (tagField e)) else .error "heap: dangling dict reference"
+      | none => pure (((toDict f).filter (fun x => !isExtraField x)).map (fun x => (x, none))))
+    let out := fromDictH h data
+    return (ofOpt out.1, out.2)
+  | k => .error s!"heap: unknown operation {k}"
+
+def exTag (m e : Nat) : Json := if e < m then jNat e else jStr "fresh"
+
+/-- the `extra_args` object of the outcome, if it has one -/
+def outRef (h' : Heap) : HOut → Option Nat
+  | .inst o => some (h'.obj o).ex
+  | .kw d => (d.foldl setFieldH ({}, none)).2
+  | _ => none
+
+/-- what Python sees of the outcome in heap `h'` -/
+def outView (h' : Heap) : HOut → Json
+  | .inst o => putR (view h' o)
+  | .kw d =>
+    let st := d.foldl setFieldH ({}, none)
+    putR { st.1 with extra := match st.2 with | some e => h'.dict e | none => [] }
+  | _ => Json.null
+
+def describe (n m : Nat) (h' : Heap) (out : HOut) : Json :=
+  match out with
+  | .noneV => jStr "none"
+  | .err => jObj [("err", jStr "ValueError")]
+  | .inst o =>
+    if o < n then jObj [("is", jNat o)]
+    else jObj [("new", outView h' out), ("ex", exTag m (h'.obj o).ex)]
+  | .kw _ => jObj [("dict", outView h' out), ("ex", match outRef h' out with | some e => exTag m e | none => Json.null)]
+
+/-- every instance and every dict object that existed before the call, as they are now -/
+def snap (n m : Nat) (h' : Heap) : List (String × Json) :=
+  [("objs", jList (fun p => jObj [("view", putR (view h' p)), ("ex", jNat (h'.obj p).ex)]) (List.range n)),
+   ("dicts", jList (fun r => jList (jPair jStr jInt) (h'.dict r)) (List.range m))]
+
+def handleHeap (a : Json) : R Json := do
+  let h : Heap := { recs := ← listF getRec a "recs", dicts := ← listF getExtra a "dicts" }
+  let n := h.recs.length
+  let m := h.dicts.length
+  if !((List.range n).all (fun o => (h.obj o).ex < m)) then .error "heap: instance with a dangling dict reference"
+  let (out, h') ← runOp h (← fld a "op")
+  let mut res := [("res", describe n m h' out)] ++ snap n m h'
+  match fld? a "mut" with
+  | none => return jObj res
+  | some mu =>
+    let k ← strF mu "k"
+    let v ← intF mu "v"
+    let target : Option Nat ← (do
+      match ← strF mu "on" with
+      | "result" => pure (outRef h' out)
+      | "dict" =>
+        let r ← natF mu "ref"
+        if r < m then pure (some r) else .error "heap: dangling dict reference"
+      | o => .error s!"heap: unknown mutation target {o}")
+    match target with
+    | none => return jObj (res ++ [("after", Json.null)])
+    | some r =>
+      let h'' := setItem h' r k v
+      return jObj (res ++ [("after", jObj ([("res_view", outView h'' out)] ++ snap n m h''))])
+
+/-! ### resources of pipeline functions (`Model/ResourcesPipe.lean`), entries `nested` and `pipeline_add` -/
+
+/-- `null` | `{"inst": fields}` | `{"dict": fields}` | `{"callable": fields}` (a callable returning that specification, as an instance or as
+    a dict: both go through the constructor when called) -/
+def getArg (j : Json) : R (Arg Unit) := do
+  if j.isNull then return .none
+  match fld? j "inst" with
+  | some v => return .inst (← getR v)
+  | none =>
+  match fld? j "dict" with
+  | some v => return .dict (toDict (← getR v))
+  | none =>
+  match fld? j "callable" with
+  | some v => let r ← getR v; return .callable (fun _ => mk? r)
+  | none => .error "resources spec: expected null, inst, dict or callable"
+
+def getChild (j : Json) : R (Option (PRes Unit)) := do
+  match maybeFromDict (← getArg j) with
+  | some p => return p
+  | none => .error "resources spec of a function is rejected by the constructor (the generator only makes valid ones)"
+
+def putPRes : Option (PRes Unit) → Json
+  | none => Json.null
+  | some (.inst r) => jObj [("inst", putR r)]
+  | some (.call g) => jObj [("call", putOptR (g ()))]
+
+def handleNested (a : Json) : R Json := do
+  let given ← getArg ((fld? a "given").getD Json.null)
+  let children ← listF getChild a "children"
+  match nestedResources given children with
+  | .error .valueError => return jObj [("err", jStr "ValueError")]
+  | .error .typeError => return jObj [("err", jStr "TypeError")]
+  | .ok r => return jObj [("ok", jOpt putR r)]
+
+def handlePipelineAdd (a : Json) : R Json := do
+  let dflt : Option PF.Res.R ← (do
+    match maybeFromDict (κ := Unit) (← getArg ((fld? a "default").getD Json.null)) with
+    | some none => pure none
+    | some (some (.inst r)) => pure (some r)
+    | _ => .error "default_resources: an instance, a valid dict or null expected")
+  let funcs ← listF (fun j => do return ((← boolF j "plain"), (← getChild ((fld? j "res").getD Json.null)))) a "funcs"
+  let outs := funcs.map fun (plain, fres) => pipelineAdd plain fres dflt
+  if outs.any Option.isNone then return jObj [("err", jStr "ValueError")]
+  return jObj [("ok", jList (fun o => putPRes (o.getD none)) outs)]
+
 def ratJ (q : Rat) : Json := jArr [jInt q.num, jNat q.den]
 
 def handle (m : String) (a : Json) : R Json := do
@@ -68,6 +241,9 @@ def handle (m : String) (a : Json) : R Json := do
     let r ← getR a
     return putOptR (fromDict? (toDict r))
   | "slurm" => return jStr (toSlurm (← getR a))
+  | "heap" => handleHeap a
+  | "nested" => handleNested a
+  | "pipeline_add" => handlePipelineAdd a
   | _ => .error s!"unknown entry {m}"
 
 def main : IO Unit := loop handle
